@@ -237,6 +237,20 @@ def odd_corners():
     yield 'unknown_hash_on_existing', mk([('L', 'DATA f0 4 FOO 00')] + flat[1:])
     yield 'unsupported_hash', mk(flat + [('L', 'DATA zz 0 WHIRLPOOL 00')], raw={'zz': b''})
     yield 'lowercase_hash', mk(flat + [('L', 'DATA zz 0 sha1 00')], raw={'zz': b''})
+    # hash-name alphabet on an EXISTING regular file of the recorded size (so that verification gets as far as
+    # comparing checksums): unknown, unsupported, wrong case, the internal pseudo-keys of the metadata interface,
+    # a repeated name, non-identifier names
+    hn_subm = b'DATA f1 3 SHA1 fe05bcdcdc4928012781a5f1a2a77cbb5398e106\n'
+    for hn in ('FOO', 'WHIRLPOOL', 'sha1', 'Sha1', '__size__', '__exists__', '__type__', '__mtime__', '__dev__',
+               '_', 'SHA1-', '1', 'SIZE', 'null', 'SHA1 00 SHA1'):
+        key = hn.replace(' ', '+')
+        yield f'hashname_{key}_data', mk([('L', f'DATA f0 4 {hn} 00')] + [x for x in flat if x[2] != 'f0'])
+        yield f'hashname_{key}_data_with_good', mk(
+            [('L', f'DATA f0 4 SHA1 {__import__("hashlib").sha1(B["f0"]).hexdigest()} {hn} 00')]
+            + [x for x in flat if x[2] != 'f0'])
+        yield f'hashname_{key}_manifest', mk(
+            [x for x in flat if not x[2].startswith('d/')] + [('L', f'MANIFEST d/Manifest {len(hn_subm)} {hn} 00')],
+            raw={'d/Manifest': hn_subm, 'd/e/f2': b'two!'})
     yield 'escape_out_of_range', mk(flat + [('L', 'DATA \\U00110000 0')])
     yield 'escape_surrogate', mk(flat + [('L', 'DATA \\uD800 0')])
     yield 'escape_surrogate_ignore', mk(flat + [('L', 'IGNORE \\uDC80')])
